@@ -155,6 +155,8 @@ TABLE = {
         "DecreasingAudioPts": ["param:pts < state:last_audio_pts"],
         "AudioBeforeFirstVideo": ["param:pts < state:first_video_pts", "variant(state:first_video_pts)=!1"],
     },
+    # "non-empty data" applies to the convenience form too; it is checked before the keyframe helper reads the bytes
+    M + "encode_video": {"EmptyVideoFrame": ["is_empty(param:data)"]},
     M + "encode_audio": {"AudioNotConfigured": ["is_none(state:audio_track)"]},
     M + "finish_in_place_with_stats": {"AlreadyFinished": ["state:finished"]},
     W + "write_video_sample_with_dts": {
